@@ -100,6 +100,23 @@ PROPS = {
         phases=[P(kind="fuzz", bin="c07_match", runs_quick=16000, runs_thorough=3000000, workers_quick=12, workers_thorough=16, max_len=1024, rss=4000, timeout=120, detect_leaks=0)],
         floor_quick=800, floor_thorough=100000,
     ),
+    "C08": P(
+        title="authenticated only after a valid SASL exchange",
+        level="exploration",
+        technique="model-based testing of the server handshake: libFuzzer-generated command scripts, credentials, mechanism sets and chunkings against the in-process DBusAuth object with the harness as an interactive client (independent SHA-1 for cookie responses), plus raw handshakes against the in-process bus under two uids",
+        level_text=("Exploration: (i) the server handshake object is created with generated socket credentials (uid 0, 1, 4242 or none), allowed-mechanism set and fd-passing capability and driven with "
+                    "scripts over AUTH (each mechanism, unknown, with/without initial response; identity = socket uid, another uid, user names, garbage, empty), DATA (right, wrong, bad hex), CANCEL, "
+                    "ERROR, BEGIN, NEGOTIATE_UNIX_FD, unknown and non-ASCII lines, 17 KB lines, fed whole, byte-wise or in random chunks, with bytes after BEGIN. DBUS_COOKIE_SHA1 challenges are "
+                    "answered from the real keyring file with an independent SHA-1: correct, wrong hash, other secret, malformed. Response class per line, permitted-mechanism list, 6-rejection and "
+                    "16 KiB cut-offs, final state, reported identity and unused bytes are compared with a model of the specification's state machine; AUTHENTICATED without a modelled valid exchange "
+                    "+ BEGIN is a violation. (ii) raw handshakes on sockets under uid 0 and uid 1 against the in-process bus: Hello answered iff valid exchange for the socket's own identity + BEGIN "
+                    "and the bus admits the user/anonymous; GetConnectionCredentials reports the socket uid; a binary Hello before BEGIN is never answered."),
+        level_note="Trusts the model in targets/c08_auth.cc (transcribed from the specification's authentication state diagrams) and engine/sha1.cc; cookie ageing (stale cookies) relies on the real clock and is not forced; hex case and ERROR texts are [U].",
+        rule=("case = (server configuration, script, chunking) decoded from fuzzer input. Non-trivial = the script reaches WaitingForData or an OK (a well-formed AUTH for a permitted mechanism); distinct = FNV-1a of configuration + command-class sequence (phase i) / of the log (phase ii)."),
+        phases=[P(kind="fuzz", bin="c08_auth", runs_quick=300000, runs_thorough=60000000, workers_quick=8, workers_thorough=16, max_len=512, rss=4000, timeout=60),
+                P(kind="fuzz", bin="c08_busauth", runs_quick=4000, runs_thorough=1000000, workers_quick=8, workers_thorough=16, max_len=512, rss=4000, timeout=120, detect_leaks=0)],
+        floor_quick=2000, floor_thorough=200000,
+    ),
     "C09": P(
         title="only the addressee of a pending call can answer it, once",
         level="exploration",
